@@ -73,6 +73,9 @@ def tasks(tier, seed):
         lab = "x".join(map(str, lens))
         for order in ("asc", "desc"):
             out.append({"fn": "product", "kwargs": {"lens": lens, "order": order}, "label": f"product/{lab}/{order}", "caps": {"max_seconds": 300}})
+    for w in range(len(EXPRS)):
+        for mode in ("product", "sequential"):
+            out.append({"fn": "product_expr", "kwargs": {"which": w, "mode": mode}, "label": f"expr/{w}/{mode}"})
     for ko in itertools.permutations(range(3)):
         out.append({"fn": "worker_pairing", "kwargs": {"keyorder": list(ko)}, "label": "worker/" + "".join(map(str, ko))})
     for ko in ((0, 2), (2, 0), (1, 2), (2, 1), (0, 1), (1, 0)):
@@ -321,6 +324,49 @@ def custom(layout, rows):
     vx.prove(f"C05/parallel_array/custom/{lab}", vx.all_of(okp))
 
 
+EXPRS = ["numpy.arange(3)", "numpy.linspace(1, 2, 30)", "numpy.arange(0.5, 2.0, 0.5)", "numpy.logspace(0, 2, 3)"]
+
+
+def product_expr(which, mode):
+    """Value lists given as textual numpy expressions (as in the YAML files): the runs are the evaluated values - as many as the
+    expression yields, whatever the length of its text - combined with a symbolic literal list."""
+    import numpy as _np
+
+    from pyxel.observation import ParameterValues
+    from pyxel.observation.misc import ProductMode, SequentialMode
+
+    expr = EXPRS[which]
+    evaluated = [v.item() if hasattr(v, "item") else v for v in eval(expr, {"numpy": _np})]  # noqa: S307 - fixed strings above
+    lit = [vx.integer("lit_0"), vx.integer("lit_1")]
+    vx.assume(lit[0] < lit[1], "literal values distinct")
+    first = vx.boolean("expression_first")
+    params = [ParameterValues(key=KEYS[1], values=expr), ParameterValues(key=KEYS[0], values=lit)]
+    if not bool(first):
+        params.reverse()
+    lists = [evaluated if p_.key == KEYS[1] else lit for p_ in params]
+    lab = f"{expr.replace(' ', '')}/{mode}"
+    if mode == "product":
+        items = ProductMode(params).get_parameters_item()
+        want = [(idx, {params[0].key: lists[0][idx[0]], params[1].key: lists[1][idx[1]]}) for idx in itertools.product(range(len(lists[0])), range(len(lists[1])))]
+        ok = [len(items) == len(want)]
+        for it, (idx, dct) in zip(items, want):
+            ok += [tuple(it.index) == idx] + [it.parameters.get(k) is v or it.parameters.get(k) == v for k, v in dct.items()]
+        vx.prove(f"C05/product/numpy_expression/{lab}", vx.all_of(ok), runs=len(items), expected=len(want))
+    else:
+        proc = _processor()
+        items = SequentialMode(params).get_parameters_item(processor=proc)
+        want = []
+        for p_, lst in zip(params, lists):
+            for v in lst:
+                d = {q.key: proc.get(q.key) for q in params}
+                d[p_.key] = v
+                want.append(d)
+        ok = [len(items) == len(want)]
+        for it, dct in zip(items, want):
+            ok += [it.parameters.get(k) is v or it.parameters.get(k) == v for k, v in dct.items()]
+        vx.prove(f"C05/sequential/numpy_expression/{lab}", vx.all_of(ok), runs=len(items), expected=len(want))
+
+
 WKEYS = ["pipeline.photon_collection.p.arguments.a", "pipeline.charge_generation.q.arguments.a", "pipeline.photon_collection.p.arguments.v"]
 
 
@@ -418,6 +464,29 @@ def _replay_custom(oid, kwargs, model):
 
 def replay(oid, kwargs, model, data):
     fn = data["fn"]
+    if fn == "product_expr":
+        import numpy as _np
+
+        from pyxel.observation import ParameterValues
+        from pyxel.observation.misc import ProductMode, SequentialMode
+
+        expr = EXPRS[kwargs["which"]]
+        evaluated = [v.item() for v in eval(expr, {"numpy": _np})]  # noqa: S307
+        lit = [int(model.get("lit_0", 1)), int(model.get("lit_1", 2))]
+        if lit[0] >= lit[1]:
+            lit = [1, 2]
+        params = [ParameterValues(key=KEYS[1], values=expr), ParameterValues(key=KEYS[0], values=lit)]
+        if not bool(model.get("expression_first", True)):
+            params.reverse()
+        if kwargs["mode"] == "product":
+            items = ProductMode(params).get_parameters_item()
+            want = len(evaluated) * 2
+        else:
+            items = SequentialMode(params).get_parameters_item(processor=_processor())
+            want = len(evaluated) + 2
+        got_vals = sorted({float(it.parameters[KEYS[1]]) for it in items if KEYS[1] in it.parameters})
+        bad = len(items) != want or not set(float(v) for v in evaluated) <= set(got_vals)
+        return bad, {"expression": expr, "values_it_yields": len(evaluated), "runs_planned": len(items), "runs_expected": want}
     if fn == "worker_pairing":
         vals = {k: int(model.get(f"x{i}", 0)) for i, k in enumerate(WKEYS)}
         if len(set(vals.values())) < len(vals):
